@@ -13,7 +13,7 @@ open CppUtil CppUtil.Epoch
 inductive Op where
   | probe (r : Nat) | gid | hbget
   | guard (v : Nat) | unguard (v : Nat) | gpe (v : Nat) | relist (v : Nat) | gepoch (v : Nat)
-  | fwd (n : Nat) | cur | min | hold (n : Nat)
+  | fwd (n : Nat) | cur | min | hold (n : Nat) | await (n : Nat) | bump
   deriving Repr, Inhabited
 
 inductive Pend where
@@ -23,7 +23,7 @@ inductive Pend where
   | enterLoad | enterStore (slot : Nat)
   | loadE (slot : Nat) | leave (slot : Nat)
   | fwdLoadG | fwdExpired (i : Nat) | fwdLoadE (i : Nat) | fwdStoreG | fwdStoreM
-  | loadCur | loadMin | holdStep
+  | loadCur | loadMin | holdStep | awaitStep (n : Nat)
   | exitStep
   | none
   deriving Repr, Inhabited, DecidableEq
@@ -76,6 +76,7 @@ structure Client where
   ownerRun : Array (Option Nat) := #[]
   issued : Array (List Nat) := #[]
   myId : Array (Option Nat) := #[]
+  turn : Nat := 0
   deriving Repr, Inhabited
 
 def mkClient (P : Params) (nvars : Nat) (progs : Array (Array Op)) : Client :=
@@ -239,6 +240,11 @@ def runPhase (P : Params) (c : Client) (t : Nat) (k : Nat) (op : Op) (ph : Nat) 
     | _ =>
       (setThread c t { th with rep := th.rep - 1 },
         [s!"FE{c.G}:{c.M}:{listStr th.lastList}:{c.live}"], .goto 1)
+  | .await n =>
+    match ph with
+    | 0 => (setThread c t { th with pend := .awaitStep n }, [], .block 1)
+    | _ => if th.flag then (c, [s!"R{k}=0"], .doneOp) else (setThread c t { th with pend := .awaitStep n }, [], .block 1)
+  | .bump => ({ c with turn := c.turn + 1 }, [s!"R{k}=0"], .doneOp)
   | .hold n =>
     match ph with
     | 0 => (setThread c t { th with rep := n }, [], .goto 1)
@@ -345,6 +351,7 @@ def stepThread (P : Params) (c : Client) (t : Nat) : Option (Client × String ×
     cont c th (atomStr "store" "M" (P.ord "fwd.storeMin").toStr 0 m)
   | .loadCur => cont c { th with val := c.G } (atomStr "load" "G" (P.ord "mgr.getCurrent").toStr c.G c.G)
   | .holdStep => cont c th (pseudoStr "hold" "-" 0 0)
+  | .awaitStep n => cont c { th with flag := decide (c.turn ≥ n) } (pseudoStr "await" "-" c.turn c.turn)
   | .loadMin => cont c { th with val := c.M } (atomStr "load" "M" (P.ord "mgr.getMin").toStr c.M c.M)
 
 end CppUtil.TClient
